@@ -28,6 +28,7 @@ def shards(tier):
         for sg, dg in [("p2x2", "t3x2"), ("t3x2", "p2x2"), ("p2x2", "p2x2")]:
             for pb in ("source", "destination"):
                 out.append(dict(op="transfer", dev=dev, sgeo=sg, dgeo=dg, k=3 if tier == "quick" else 4, steps=1, partition_by=pb, washes=[1], ncand=2, wl_max=common.BIG * 2, geo=sg))
+    out.append(dict(op="alias", concrete=True, geo="p2x2", shapes=[], k=1))
     return out
 
 
@@ -44,6 +45,23 @@ def witnesses(tier):
 
 
 def scenario(ctx, p):
+    if p["op"] == "alias":
+        # two labware (and the caller) must not share volume state, however the initial volumes were passed
+        import numpy
+        ns = common.rt()
+        kind = ctx.choose("arg", ["float-array", "int-array", "list", "fortran", "scalar"])
+        arg = {"float-array": numpy.array([[5.0, 6.0], [7.0, 8.0]]), "int-array": numpy.array([[5, 6], [7, 8]]), "list": [[5.0, 6.0], [7.0, 8.0]],
+               "fortran": numpy.asfortranarray([[5.0, 6.0], [7.0, 8.0]]), "scalar": 5.0}[kind]
+        A = ns.Labware("A", 2, 2, min_volume=0, max_volume=100, initial_volumes=arg)
+        B = ns.Labware("B", 2, 2, min_volume=0, max_volume=100, initial_volumes=arg)
+        b0 = B.volumes.tolist()
+        wl = ns.EvoWorklist()
+        wl.transfer(A, ["A01", "B02"], B, ["A01", "A02"], [1.0, 2.0])
+        a_want = [[4.0, 6.0], [7.0, 6.0]] if kind != "scalar" else [[4.0, 5.0], [5.0, 3.0]]
+        b_want = [[b0[0][0] + 1.0, b0[0][1] + 2.0], b0[1]]
+        ctx.ctx["alias"] = dict(kind=kind, A=A.volumes.tolist(), B=B.volumes.tolist(), a_want=a_want, b_want=b_want,
+                                arg=(arg.tolist() if hasattr(arg, "tolist") else arg))
+        return A
     if p["op"] == "transfer":
         W = wlops.build(ctx, p)
         ctx.ctx["W"] = W
@@ -75,6 +93,17 @@ def judge(ctx, p, outcome):
         return
     c = ctx.ctx
     ns = common.rt()
+    if p["op"] == "alias":
+        if kind != "ok":
+            ctx.violate(f"C04: {type(val).__name__}: {val}")
+            return
+        ctx.reach("ok")
+        a = c["alias"]
+        if a["A"] != a["a_want"] or a["B"] != a["b_want"]:
+            ctx.violate("C04: a transfer between two labware built from the same initial_volumes argument does not book initial - removed / initial + added", info=repr(a))
+        if a["kind"] != "scalar" and a["arg"] != [[5.0, 6.0], [7.0, 8.0]] and a["arg"] != [[5, 6], [7, 8]]:
+            ctx.violate("C04: operations on a labware changed the caller's initial_volumes argument", info=repr(a))
+        return
     if p["op"] == "transfer":
         if kind != "ok":
             ctx.reach("exc:" + type(val).__name__ if isinstance(val, ns.VolumeViolationException) else "exc:other")
